@@ -314,6 +314,39 @@ def run (k : Nat) (H : History) : List Ev := runFrom step (Over.init k) H
 
 end sequenceEqualCode
 
+/-! ### sequence_equal (src/operators/sequence_equal.rs after the F10 repair): every sequence is compared together
+with its END.  `with_end(o) = o.map(|x| Some(x)).concat(&[just(None)])`: an item `d` of source `i` reaches zip as
+`Some(d)`; a completion of source `i` makes `concat` subscribe `just(None)`, so zip's observer `i` first receives
+the item `None` and then the completion; an error is passed on unchanged.  The tuples are zipped and compared by the
+closures of `sequenceEqualCode` (first tuple with unequal components ⇒ `false, complete`; zip completes ⇒
+`true, complete`; error ⇒ that error).  `Some(d)` / `None` are encoded as `Data.optEnc` does (Kernel/Basic.lean):
+`[d]` / `[]`. -/
+namespace sequenceEqual
+
+def endSome (d : Data) : Data := .lcons d .lnil
+def endNone : Data := .lnil
+
+/-- one event of source `p.1`, as zip's observers see it -/
+def step (s : Over) (p : Nat × Ev) : Over × List Ev :=
+  match p.2 with
+  | .next d => sequenceEqualCode.step s (p.1, .next (endSome d))
+  | .error e => sequenceEqualCode.step s (p.1, .error e)
+  | .complete =>
+    ((sequenceEqualCode.step (sequenceEqualCode.step s (p.1, .next endNone)).1 (p.1, .complete)).1,
+      (sequenceEqualCode.step s (p.1, .next endNone)).2 ++
+        (sequenceEqualCode.step (sequenceEqualCode.step s (p.1, .next endNone)).1 (p.1, .complete)).2)
+
+def run (k : Nat) (H : History) : List Ev := runFrom step (Over.init k) H
+
+/-- the history as zip's observers see it -/
+def withEnd : History → History
+  | [] => []
+  | (i, .next d) :: H => (i, .next (endSome d)) :: withEnd H
+  | (i, .error e) :: H => (i, .error e) :: withEnd H
+  | (i, .complete) :: H => (i, .next endNone) :: (i, .complete) :: withEnd H
+
+end sequenceEqual
+
 /-! ### take_until (src/operators/take_until.rs:30-63): 0 = source, 1 = trigger -/
 namespace takeUntil
 
@@ -518,7 +551,7 @@ def runOp (name : String) (k : Nat) (H : History) : List Ev :=
   else if name == "skip_until" then skipUntil.run k H
   else if name == "sample" then sample.run k H
   else if name == "switch_on_next" then switchOnNext.run k H
-  else if name == "sequence_equal" then sequenceEqualCode.run k H
+  else if name == "sequence_equal" then sequenceEqual.run k H
   else if name == "flat_map" then flatMap.run k H
   else []
 
